@@ -37,7 +37,7 @@ OutLaw(run, out, bound, nd) ==
           (* the call ended before its k-th poll: it must be the uncancelled outcome *)
           (* (where Go picks the member order per call, nd, another order may end earlier and differently) *)
           (IF nd \/ (out.e = run.base.e /\ out.n = Len(run.base.i) /\ out.b = run.base.b) THEN {} ELSE {"C20.unobserved-differs" \o tag})
-     ELSE (IF e.cls = "ctx" /\ e.x /\ (IF run.kind = "c" THEN e.can ELSE e.dl) THEN {} ELSE {"C20.not-ctx-error" \o tag})
+     ELSE (IF e.cls = "ctx" /\ e.x /\ (IF run.kind \in {"c", "u"} THEN e.can ELSE e.dl) THEN {} ELSE {"C20.not-ctx-error" \o tag})
           \cup (IF out.n = 0 /\ ~out.b THEN {} ELSE {"C20.result-with-cancel" \o tag})
           \cup (IF out.p - out.k <= bound THEN {} ELSE {"C20.unbounded-steps" \o tag})
 
